@@ -87,6 +87,8 @@ def class_header(schema, cls: str) -> str:
     out.append(f"  static void mon_anchor() {{ {_lib_fn(lib) + '();' if lib else ''} }}")
     for en, vals in c.get("enums", {}).items():
         out.append(f"  enum {en} {{ {', '.join(vals)} }};")
+    for scope, enums in c.get("nested_enums", {}).items():
+        out.append(f"  struct {scope} {{ " + " ".join(f"enum {en} {{ {', '.join(vals)} }};" for en, vals in enums.items()) + " };")
     fields = [(n, m) for n, m in c["members"].items() if m["k"] == "field"]
     for n, m in fields:
         out.append(f"  {m['ctype']} {n} = 0;")
